@@ -321,6 +321,15 @@ def _search_history(case, name, prop):
     from contracts import wrapper_explore as WE
     clause = name.split('/', 1)[1] if '/' in name else name
     only = {clause} if not (clause.startswith('inv.') or clause.startswith('loop') or '@' in clause) else _props_for_explorer(prop)
+    if '[re-entrant]' in name:
+        # the clause was stated for a user function that re-enters the cache: search with memoised recursion
+        try:
+            v = WE.linear_search(case.modname, case.clsname, only, depth=4, budget_s=30.0, recursive=True)
+            if v is not None and WE.replay_history(v):
+                return v
+        except Exception:
+            pass
+        return None
     try:
         r = WE.explore(case.modname, case.clsname, depth=6, budget_s=25.0, only=only)
     except Exception:
